@@ -1,0 +1,96 @@
+// Copyright © 2022-2026 Obol Labs Inc. Licensed under the terms of a Business Source License 1.1
+
+//go:build verif
+
+package core
+
+import (
+	eth2p0 "github.com/attestantio/go-eth2-client/spec/phase0"
+
+	"github.com/obolnetwork/charon/eth2util"
+)
+
+// This file exposes the unexported encoding helpers of this package (core/proto.go, core/ssz.go,
+// core/unsigneddata.go) to the external verification harness. It adds no behaviour.
+
+// VerifSSZType is the unexported sszType interface (ssz.Marshaler + ssz.Unmarshaler).
+type VerifSSZType = sszType
+
+// VerifSSZOffsets returns the header sizes of the three versioned ssz wrappers.
+func VerifSSZOffsets() (blinded, versioned, valIdx int) {
+	return versionedBlindedOffset, versionedOffset, versionedValIdxOffset
+}
+
+// VerifMarshal exposes marshal (ssz if supported and enabled, else json).
+func VerifMarshal(v any) ([]byte, error) { return marshal(v) }
+
+// VerifUnmarshal exposes unmarshal (ssz first, json fallback).
+func VerifUnmarshal(data []byte, v any) error { return unmarshal(data, v) }
+
+// VerifUnmarshalUnsignedData exposes unmarshalUnsignedData.
+func VerifUnmarshalUnsignedData(typ DutyType, data []byte) (UnsignedData, error) {
+	return unmarshalUnsignedData(typ, data)
+}
+
+// VerifSetSSZMarshalling sets the package switch that DisableSSZMarshallingForT toggles for
+// tests and returns the previous value.
+func VerifSetSSZMarshalling(enabled bool) bool {
+	prev := sszMarshallingEnabled
+	sszMarshallingEnabled = enabled
+
+	return prev
+}
+
+// VerifMarshalSSZVersionedBlindedTo exposes marshalSSZVersionedBlindedTo.
+func VerifMarshalSSZVersionedBlindedTo(dst []byte, version eth2util.DataVersion, blinded bool, valFunc func(eth2util.DataVersion, bool) (VerifSSZType, error)) ([]byte, error) {
+	return marshalSSZVersionedBlindedTo(dst, version, blinded, valFunc)
+}
+
+// VerifMarshalSSZVersionedValidatorIdxTo exposes marshalSSZVersionedValidatorIdxTo.
+func VerifMarshalSSZVersionedValidatorIdxTo(dst []byte, version eth2util.DataVersion, valIdx eth2p0.ValidatorIndex, valFunc func(eth2util.DataVersion) (VerifSSZType, error)) ([]byte, error) {
+	return marshalSSZVersionedValidatorIdxTo(dst, version, valIdx, valFunc)
+}
+
+// VerifMarshalSSZVersionedTo exposes marshalSSZVersionedTo.
+func VerifMarshalSSZVersionedTo(dst []byte, version eth2util.DataVersion, valFunc func(eth2util.DataVersion) (VerifSSZType, error)) ([]byte, error) {
+	return marshalSSZVersionedTo(dst, version, valFunc)
+}
+
+// VerifUnmarshalSSZVersionedBlinded exposes unmarshalSSZVersionedBlinded.
+func VerifUnmarshalSSZVersionedBlinded(buf []byte, valFunc func(eth2util.DataVersion, bool) (VerifSSZType, error)) (eth2util.DataVersion, bool, error) {
+	return unmarshalSSZVersionedBlinded(buf, valFunc)
+}
+
+// VerifUnmarshalSSZVersionedValidatorIdx exposes unmarshalSSZVersionedValidatorIdx.
+func VerifUnmarshalSSZVersionedValidatorIdx(buf []byte, valFunc func(eth2util.DataVersion) (VerifSSZType, error)) (eth2util.DataVersion, *eth2p0.ValidatorIndex, error) {
+	return unmarshalSSZVersionedValidatorIdx(buf, valFunc)
+}
+
+// VerifUnmarshalSSZVersioned exposes unmarshalSSZVersioned.
+func VerifUnmarshalSSZVersioned(buf []byte, valFunc func(eth2util.DataVersion) (VerifSSZType, error)) (eth2util.DataVersion, error) {
+	return unmarshalSSZVersioned(buf, valFunc)
+}
+
+// VerifVersionedBlindedSSZValue exposes sszValFromVersion of VersionedSignedProposal / VersionedProposal.
+func VerifVersionedBlindedSSZValue(value any, version eth2util.DataVersion, blinded bool) (VerifSSZType, error) {
+	return value.(interface {
+		sszValFromVersion(version eth2util.DataVersion, blinded bool) (sszType, error)
+	}).sszValFromVersion(version, blinded)
+}
+
+// VerifVersionedSSZValue exposes sszValFromVersion of the non-blinded versioned types.
+func VerifVersionedSSZValue(value any, version eth2util.DataVersion) (VerifSSZType, error) {
+	return value.(interface {
+		sszValFromVersion(version eth2util.DataVersion) (sszType, error)
+	}).sszValFromVersion(version)
+}
+
+// VerifAttesterDutyMarshalSSZ exposes attesterDutySSZ.MarshalSSZTo.
+func VerifAttesterDutyMarshalSSZ(a AttestationData) ([]byte, error) {
+	return attesterDutySSZ(a.Duty).MarshalSSZTo(nil)
+}
+
+// VerifAttesterDutyUnmarshalSSZ exposes attesterDutySSZ.UnmarshalSSZ.
+func VerifAttesterDutyUnmarshalSSZ(a *AttestationData, buf []byte) error {
+	return (*attesterDutySSZ)(&a.Duty).UnmarshalSSZ(buf)
+}
